@@ -37,6 +37,7 @@ props! {
     "C13" => c13,
     "C14" => c14,
     "C15" => c15,
+    "C16" => c16,
     "C17" => c17,
     "C19" => c19,
 }
